@@ -6,6 +6,7 @@ usage: tools/seeded.py <worktree-id> <PROP> [<PROP>...]
  3. store patch.diff, demo, meta.json (+ what was run) under /verif/seeded/<id>/"""
 import json, os, shutil, subprocess, sys
 V = os.path.dirname(os.path.dirname(os.path.abspath(__file__)))
+REPO = os.environ.get("VERIF_REPO", "/repo")   # an isolated copy under tools/isorun.py
 def sh(cmd, cwd=None):
     return subprocess.run(cmd, shell=True, cwd=cwd, stdout=subprocess.PIPE, stderr=subprocess.STDOUT, text=True)
 def main():
@@ -47,8 +48,9 @@ def confirm(wt, env, demo_name, rec):
     sh("git apply patch.diff", cwd=wt)
 def run_checks(wt, props, rec):
     # 2. our checks
-    assert sh("git -C /repo status --porcelain --untracked-files=no").stdout.strip() == "", "repo dirty"
-    a = sh(f"git -C /repo apply {wt}/patch.diff")
+    if REPO == "/repo":
+        assert sh("git -C /repo status --porcelain --untracked-files=no").stdout.strip() == "", "repo dirty"
+    a = sh(f"git apply {wt}/patch.diff", cwd=REPO)
     rec["applies_to_repo"] = a.returncode == 0
     try:
         for p in props:
@@ -57,7 +59,7 @@ def run_checks(wt, props, rec):
             keys = [l.strip() for l in r.stdout.splitlines() if l.strip().startswith("key:")][:5]
             rec[p] = {"exit": r.returncode, "violations": len(vio), "first_keys": keys}
     finally:
-        sh("git -C /repo checkout -- .")
+        sh(f"git apply -R {wt}/patch.diff", cwd=REPO)
 def store(wt, d, demo, demo_name, rec):
     # 3. store
     os.makedirs(d, exist_ok=True)
